@@ -925,7 +925,15 @@ func (s *Scope) evalCall(e *Expr) *Val {
 	if len(e.Args) >= 1 {
 		if recv := s.eval(e.Args[0]); recv != nil && recv.Ty != nil {
 			key := shortTypeName(recv.Ty) + "." + e.Name
-			if !c.W.externPure[key] {
+			scope := ""
+			if s.fr != nil {
+				scope = s.fr.scopePkg()
+			}
+			pureKey := func(k string) bool {
+				ek, ok := c.W.externKey(scope, k)
+				return ok && c.W.externPure[ek]
+			}
+			if !pureKey(key) {
 				// static method of a named (pointer) type: "pkg.(*T).Name" / "pkg.(T).Name"
 				if p, ok := recv.Ty.(*types.Pointer); ok {
 					if nt, ok := p.Elem().(*types.Named); ok && nt.Obj().Pkg() != nil {
@@ -935,7 +943,7 @@ func (s *Scope) evalCall(e *Expr) *Val {
 					key = shortPkg(nt.Obj().Pkg().Path()) + ".(" + nt.Obj().Name() + ")." + e.Name
 				}
 			}
-			if c.W.externPure[key] {
+			if pureKey(key) {
 				var rest []*Val
 				for i := 1; i < len(e.Args); i++ {
 					rest = append(rest, argv(i))
